@@ -9,7 +9,7 @@ import json, os, subprocess, sys
 sys.path.insert(0, os.path.dirname(os.path.dirname(os.path.abspath(__file__))))
 import vlib
 
-ALL_TOGGLES = ["f1", "f2", "f3", "f14"]
+ALL_TOGGLES = ["f1", "f3", "f14"]   # f2, f16 are fixed in /repo: part of the as-is model now
 
 
 def split_cases(ops):
